@@ -12,6 +12,8 @@ LEVEL_TEXT["C10"] = "Bounded model checking of the real deterministic building b
 LEVEL_TEXT["C12"] = "Bounded model checking of the real update_signature as a one-step inductive contract: for an arbitrary decodable signature (A, e), any key, any old/new octet and each concrete (n, position) shape, the result keeps e and satisfies A'(sk+e) = A(sk+e) - H_i*old + H_i*new, and out-of-range positions (up to usize::MAX) are refused without panic. By induction this gives the statement for update histories of any length; the chain itself is not executed."
 LEVEL_TEXT["C01"] = "Bounded model checking of the real sign and verify with a PROGRAMMED random oracle (every expand_message answer is a free symbolic value): sign returns Ok with e = the oracle's answer to the e-query and A(sk+e) = P1 + Q1*domain + sum H_i*m_i, survives its 80-octet encoding, and makes exactly the queries (count, message and DST lengths) the draft prescribes; verify accepts an ARBITRARY decodable (A, e) iff A(sk+e) = B. Completeness follows by composing the two contracts; None/empty header and message list take the same path (same query lengths)."
 LEVEL_TEXT["C02"] = "Bounded model checking of the real verify: the accept <=> A(sk+e) = B(pk, header, all messages) equivalence for arbitrary (A, e), sk and oracle answers (so any edit that changes an oracle query or a message scalar changes B by a non-zero multiple of a generator), plus, for an arbitrary valid signature, every one of the 640 single-bit flips of its encoding (symbolic bit index) is refused by the decoder or by verify. Cross-suite / cross-interface claims rest on query separation and are not decided here."
+LEVEL_TEXT["C03"] = "Bounded model checking of the real proof_gen followed by the real proof_verify in one query, with a programmed random oracle: for an arbitrary valid signature over symbolic message scalars and domain, every disclosure subset of the stated shapes in ascending, descending and duplicated presentation, proof generation succeeds, makes the prescribed oracle queries, the proof has 272 + 32*U octets, the verifier hashes exactly the same challenge input as the prover (captured octets compared: T1, T2, domain, indexes, disclosed scalars, ph) and accepts. The encode/decode round trip of proofs is C09 (rt_proof)."
+LEVEL_TEXT["C04"] = "Same flow as C03 with one edit between prover and verifier (disclosed message replaced, header replaced, presentation header replaced, disclosed index moved): the verifier's challenge input provably differs from the prover's, and the verifier accepts only if an independent oracle answer coincides with the transmitted challenge (probability 1/r for a random oracle). Identity-point proofs are refused by the decoder (C09 forbid_identity_proof). Forgery families without a signature, the serde path, other public key and single-bit flips of proof octets are NOT decided."
 NOTES = {
     "C08": "bls12_381_plus / elliptic-curve / rand are replaced by model crates (prime-order group as discrete logs mod 257, logged deterministic oracle, unconstrained randomness); generator creation and message-to-scalar hashing are stubbed by tables in operation harnesses; CBMC pointer-validity checks are ignored because zkryptium is safe Rust (checked at run time); inputs longer than the stated lengths, serde_json decoding and wall-clock time are outside.",
     "C09": "what the real bls12_381_plus accepts as a point or scalar is outside (model codecs are canonical by construction); JSON codec outside; lengths beyond the stated ranges outside.",
@@ -20,6 +22,8 @@ NOTES["C10"] = "model dependencies as for C08: equality is over the model oracle
 NOTES["C12"] = "generators come from a fixed table stub (real generator creation is checked in C10); message-to-scalar hashing is real; degenerate cases sk+e = 0 and B' = identity (probability 1/r in the real group) are excluded; the induction step from the contract to histories is an argument in DESIGN.md, not a solver query; verification of the updated signature relies on the verify relation A(sk+e) = B which is not re-checked here."
 NOTES["C01"] = "model dependencies; generators from a fixed pure table (stub, real creation checked in C10); the oracle is programmed, so WHAT is hashed is constrained only through the recorded query count and message/DST lengths here (content: C10 units); sk + e = 0 and B = identity excluded; L <= 2 (3), messages of 0-2 octets, header None/empty/1/2 octets; thousands of messages / long messages outside."
 NOTES["C02"] = "as C01; 'altered message / header => different oracle answer => different scalar' is the random-oracle assumption (not decided); other public key, other ciphersuite, plain vs blind interface are NOT covered; bit flips for L <= 2."
+NOTES["C03"] = "programmed oracle; fixed pure generator table; CONCRETE secret key (5), signature exponent (9), challenge (77) and blinding draw sequence (table of 16 distinct values) - with these symbolic the solver has to prove associativity of products of three symbolic factors mod 257 and does not finish; symbolic: all message scalars, domain, message/header/ph octets; L <= 3 with at most ONE undisclosed message (two or more do not close within the caps); production randomness path is the one compiled."
+NOTES["C04"] = "as C03; 'a different query gets an independent answer' is the random-oracle assumption; only the four edit classes listed, on honest proofs; no adversarial proof construction."
 TECH = "bounded model checking of the compiled Rust code (Kani 0.68 -> CBMC 6.11 -> CaDiCaL), one symbolic query per shape, counterexamples replayed on the real build"
 
 NOT_APPLICABLE = {
@@ -34,7 +38,7 @@ NOT_APPLICABLE = {
 PENDING = {}
 
 
-CLAIMED = ["C01", "C02", "C08", "C09", "C10", "C12"]
+CLAIMED = ["C01", "C02", "C03", "C04", "C08", "C09", "C10", "C12"]
 
 
 def main():
